@@ -282,7 +282,7 @@ fn size_world(seed: u64, idx: u64, s: &dyn SuiteOps, which: usize, len: usize) -
 
 /// over-long inputs must be refused: by the call that takes them (identities,
 /// context) or by the flow before anything that depends on them exists (password)
-fn size_judge(w: &World, r: &RunResult) -> Vec<Violation> {
+pub fn size_judge(w: &World, r: &RunResult) -> Vec<Violation> {
     let mut v = vec![];
     let over = |x: &Option<Hex>| x.as_ref().map_or(false, |h| h.0.len() > 65535);
     let over_id = |x: &IdSpec| matches!(x, IdSpec::Bytes(h) if h.0.len() > 65535);
